@@ -64,3 +64,11 @@ Example c09_builder_nonvacuous :
 Proof. do 2 eexists. split; [vm_compute; reflexivity|]. split; vm_compute; reflexivity. Qed.
 Example c09_comp_ok_nonvacuous : Forall comp_ok (cg_comps ex_comp).
 Proof. repeat constructor; cbn; unfold u16, i16; lia. Qed.
+
+(* two all-off-curve squares: in FreeType style each contour starts at the midpoint of ITS OWN last and
+   first points (the input of seeded mutant m4, which took the last point of the whole outline) *)
+Example c09_to_path_two_offcurve_contours :
+  to_path false (half_unit_points [0; 10; 10; 0; 100; 110; 110; 100] [0; 0; 10; 10; 0; 0; 10; 10] [0; 0; 0; 0; 0; 0; 0; 0]) [3; 7]
+  = Some [PM 0 10; PQ 0 0 10 0; PQ 20 0 20 10; PQ 20 20 10 20; PQ 0 20 0 10; PZ;
+          PM 200 10; PQ 200 0 210 0; PQ 220 0 220 10; PQ 220 20 210 20; PQ 200 20 200 10; PZ].
+Proof. vm_compute. reflexivity. Qed.
